@@ -55,6 +55,7 @@ def cases(tier):
                         if (tier == "thorough" and small and L <= 4) or L <= 3:
                             # two toggles at different steps (e.g. a link opened while still cut off, its zone reconnected later)
                             scheds += [((a, 3600), (b, 7200)) for a in range(L) for b in range(L) if a != b]
+                            scheds += [((a, 3600), (b, 3600)) for a in range(L) for b in range(a + 1, L)]      # both at one instant
                         for ev in scheds:
                             out.append(graph_spec(nf, k, edges, closed, ev, "pipe"))
                         if (k <= 3 and L <= 4) or (tier == "thorough" and small):
